@@ -9,7 +9,7 @@ props = [json.loads(l) for l in open(os.path.join(VERIF, "properties.jsonl"))]
 checks, na = [], []
 for p in props:
     pid = p["id"]
-    if pid in registry.PROPS and registry.PROPS[pid].get("manifest"):
+    if pid in mm.CLAIMED and pid in registry.PROPS and registry.PROPS[pid].get("manifest"):
         meta = registry.PROPS[pid]["manifest"]
         checks.append({
             "property_id": pid,
